@@ -28,6 +28,7 @@ def cycNet : List CycOp → Int
   | .inc :: os => 1 + cycNet os
   | .dec :: os => -1 + cycNet os
   | .adv n :: os => n + cycNet os
+  | .sub n :: os => -n + cycNet os
 
 def manhattan (p q : Pos) : Nat := (p.x - q.x).natAbs + (p.y - q.y).natAbs
 def chebyshev (p q : Pos) : Nat := max (p.x - q.x).natAbs (p.y - q.y).natAbs
